@@ -1080,6 +1080,9 @@ func (f *Frame) anchorsAt(kind, calleeName string, st *State) {
 			u.note("assumed at " + ShortName(f.fn) + " " + want + ": " + a.Src)
 			continue
 		}
+		if imp, ok := a.E.(*EBin); ok && imp.Op == "==>" {
+			u.coverCond(st, "antecedent of "+want+"/"+label, ctx.evalBool(imp.X))
+		}
 		g := ctx.evalGoal(a.E)
 		u.oblige(st, "assert-noassume", f.anchor+want+"/"+label, g, "at "+want+": "+a.Src)
 		u.assume(st, ctx.evalBool(a.E))
@@ -1113,6 +1116,9 @@ func (f *Frame) anchorsAfterCall(calleeName string, st *State) {
 			u.assume(st, ctx.evalBool(a.E))
 			u.note("assumed at " + ShortName(f.fn) + " " + want + ": " + a.Src)
 			continue
+		}
+		if imp, ok := a.E.(*EBin); ok && imp.Op == "==>" {
+			u.coverCond(st, "antecedent of "+want+"/"+label, ctx.evalBool(imp.X))
 		}
 		u.oblige(st, "assert-noassume", f.anchor+want+"/"+label, ctx.evalGoal(a.E), "at "+want+": "+a.Src)
 		u.assume(st, ctx.evalBool(a.E))
